@@ -130,14 +130,16 @@ theorem leaves_loop (reg : Registry) (xs : List Bytes) (x : Bytes) (xs' : List B
   intro s hg hd
   rw [writeNode]
   simp only [loopParts_plain a b inner hcf, Option.map_none]
-  rw [rloopQB_plain_fn _ _ spec (by decide)]
   have hs0 : ({ s with c := { s.c with brkD := 0 } } : St) = s := by
     cases s with | mk c w => cases c; simp at hd; subst hd; rfl
+  -- the loop starts from the state with `ctx.Err` cleared
+  have hg1 : Good xs ({ s with c := { s.c with err := none } } : St) := ⟨hg.bnd, hg.wr, hg.src⟩
+  have hd1 : ({ s with c := { s.c with err := none } } : St).c.brkD = 0 := hd
   obtain ⟨k, v, ik, hgs, hbd, hw, hstop⟩ :=
-    rloopWith_first_stops (fun st => writeSeq reg (f+5) [.raw a, inner, .raw b] st) xs x xs' hxs s hg
-  obtain ⟨hbe, hbdd, hbo, hbg⟩ := body_run reg xs inner f d o brk a b h _ hgs (by rw [hbd]; exact hd)
+    rloopWith_first_stops (fun st => writeSeq reg (f+5) [.raw a, inner, .raw b] st) xs x xs' hxs _ hg1
+  obtain ⟨hbe, hbdd, hbo, hbg⟩ := body_run reg xs inner f d o brk a b h _ hgs (by rw [hbd]; exact hd1)
   have hst := hstop _ (pending_stops _ d hbe hbdd)
-  rw [loopNode_ok _ s _ (by rw [hs0]; exact hst) rfl]
+  rw [loopNode_ok _ s _ (by rw [hs0, rloopQB_plain _ _ spec s (by decide)]; exact hst) rfl]
   refine ⟨rfl, ?_, ?_, ⟨hbg.bnd, hbg.wr, hbg.src⟩⟩
   · simp [ok, hd]
   · simp only [ok]
@@ -237,9 +239,11 @@ theorem outer_carries_on (reg : Registry) (xs : List Bytes) (x : Bytes) (xs' : L
   intro s hg hd
   rw [writeNode]
   simp only [loopParts_plain a b inner hcf, Option.map_none]
-  rw [rloopQB_plain_fn _ _ spec (by decide)]
   have hs0 : ({ s with c := { s.c with brkD := 0 } } : St) = s := by
     cases s with | mk c w => cases c; simp at hd; subst hd; rfl
+  -- the loop starts from the state with `ctx.Err` cleared
+  have hg1 : Good xs ({ s with c := { s.c with err := none } } : St) := ⟨hg.bnd, hg.wr, hg.src⟩
+  have hd1 : ({ s with c := { s.c with err := none } } : St).c.brkD = 0 := hd
   -- one iteration of the body
   have hrun : ∀ st, Good xs st → st.c.brkD = 0 →
       (writeSeq reg (f+5) [.raw a, inner, .raw b] st).err = none ∧
@@ -258,21 +262,22 @@ theorem outer_carries_on (reg : Registry) (xs : List Bytes) (x : Bytes) (xs' : L
     refine ⟨rfl, hdd, ?_, ⟨hgi.bnd, hgi.wr, hgi.src⟩⟩
     simp [ok, ho]
   have hall := rloopLoop_all xs (fun st => writeSeq reg (f+5) [.raw a, inner, .raw b] st) (a ++ o ++ b) hrun
-    (loopItems (.ins (.strs xs) .strings) []) 0 s hg hd
+    (loopItems (.ins (.strs xs) .strings) []) 0 _ hg1 hd1
   obtain ⟨hab, hn, hout, hgl, hbl⟩ := hall
-  have hloop : rloopWith (fun st => writeSeq reg (f+5) [.raw a, inner, .raw b] st) none spec s =
-      ok { (rloopLoop (fun st => writeSeq reg (f+5) [.raw a, inner, .raw b] st) spec (loopItems (.ins (.strs xs) .strings) []) 0 s).st with
-        c := { (rloopLoop (fun st => writeSeq reg (f+5) [.raw a, inner, .raw b] st) spec (loopItems (.ins (.strs xs) .strings) []) 0 s).st.c with err := none } } := by
+  have hloop : rloopWith (fun st => writeSeq reg (f+5) [.raw a, inner, .raw b] st) none spec { s with c := { s.c with err := none } } =
+      ok { (rloopLoop (fun st => writeSeq reg (f+5) [.raw a, inner, .raw b] st) spec (loopItems (.ins (.strs xs) .strings) []) 0 { s with c := { s.c with err := none } }).st with
+        c := { (rloopLoop (fun st => writeSeq reg (f+5) [.raw a, inner, .raw b] st) spec (loopItems (.ins (.strs xs) .strings) []) 0 { s with c := { s.c with err := none } }).st.c with err := none } } := by
     unfold rloopWith
     have hsp : splitDots spec.src = [lit "l"] := by decide
-    simp only [hsp, hg.src]
+    simp only [hsp, hg1.src]
     unfold afterLoop
-    have hn0 : ((rloopLoop (fun st => writeSeq reg (f+5) [.raw a, inner, .raw b] st) spec (loopItems (.ins (.strs xs) .strings) []) 0 s).n == 0) = false := by
+    have hn0 : ((rloopLoop (fun st => writeSeq reg (f+5) [.raw a, inner, .raw b] st) spec (loopItems (.ins (.strs xs) .strings) []) 0 { s with c := { s.c with err := none } }).n == 0) = false := by
       rw [hn, loopItems_length, hxs]; simp
     simp only [hab, Bool.false_eq_true, if_false, hn0]
-  rw [loopNode_ok _ s _ (by rw [hs0]; exact hloop) rfl]
+  rw [loopNode_ok _ s _ (by rw [hs0, rloopQB_plain _ _ spec s (by decide)]; exact hloop) rfl]
   refine ⟨rfl, ?_, ?_, ⟨hgl.bnd, hgl.wr, hgl.src⟩⟩
-  · simp [ok, hd, hbl]
+  · simp only [ok]
+    rw [hbl, hd]; rfl
   · simp only [ok]
     rw [hout, loopItems_length]
 
